@@ -13,11 +13,12 @@ from harness.common import enc
 from harness import c06
 
 PROP = 'C13'
-GENERATORS = ['gen_command']
+GENERATORS = ['gen_command', 'gen_cmdstack']
 TRUSTED = [
     'hand model coq/C13/Model.v of CommandStack.do/undo/redo, AddData, RemoveData, ApplySubsetState/ApplyROI (do and undo) and '
     'EditSubsetMode._combine_data over the C06 model of the data collection (tied by correspondence on the explored sequences)',
     'tools/gen/gen_command.py reads MAX_UNDO and the truncation slice of CommandStack.do from the current source (ast, fail-closed) into coq/gen/Gen_command.v',
+    'tools/gen/gen_cmdstack.py translates CommandStack.do/undo/redo statement by statement (fail-closed) into coq/gen/Gen_cmdstack.v; theorem stack_refines_generated ties the model to that text',
     'selections are expression trees over atomic states (ElementSubsetState on 4-element datasets); masks of the model are bitwise operations on 4 bits; '
     'numpy evaluation of the real states is the platform',
     'ApplyROI is driven with an apply_func that calls EditSubsetMode.update with the state built from the region (what viewers do); it is the same model command as ApplySubsetState',
@@ -399,7 +400,7 @@ def stream_exhaustive(R, ncolors):
     n_exh = len(cases)
     extra = []
     rng = R.subrng('exh-extra')
-    for _ in range(R.pick(3500, 30000)):
+    for _ in range(R.pick(6000, 30000)):
         cfg = rng.choice(CONFIGS)
         k = rng.choice([kmax + 1, kmax + 2, kmax + 3])
         extra.append(dict(cfg, ops=[rng.choice(al) for _ in range(k)]))
@@ -470,8 +471,8 @@ def rand_case(rng, burst=False, max_undo=50):
 
 
 def stream_random(R, ncolors, max_undo):
-    n = R.pick(700, 8000)
-    nb = R.pick(12, 120)
+    n = R.pick(1200, 8000)
+    nb = R.pick(16, 120)
     cases = [rand_case(R.subrng('rand', i)) for i in range(n)]
     cases += [rand_case(R.subrng('burst', i), burst=True, max_undo=max_undo) for i in range(nb)]
     outs = R.model([case_line(c, ncolors) for c in cases])
